@@ -102,6 +102,9 @@ func (core *JApiCore) setPathVariablesToCatalog() *jerr.JApiError {
 				if b.Len() != 0 {
 					pv, err := buildPathVariables(b)
 					if err != nil {
+						if d := core.faultyPathDirective(pp); d != nil {
+							pathDirective = d
+						}
 						if pathDirective == nil {
 							return nil, core.japiError(err.Error(), 0)
 						}
@@ -117,6 +120,24 @@ func (core *JApiCore) setPathVariablesToCatalog() *jerr.JApiError {
 		return err.(*jerr.JApiError) //nolint:errorlint
 	}
 
+	return nil
+}
+
+// faultyPathDirective finds the Path directive to blame when the path variables
+// of an interaction can't be built: they are assembled from the Path directives
+// of several places, the one whose piece can't be built alone is at fault.
+func (core *JApiCore) faultyPathDirective(pp []PathParameter) *directive.Directive {
+	for _, p := range pp {
+		piece, ok := core.piecesOfPathVariables[p]
+		if !ok || piece.pathDirective == nil {
+			continue
+		}
+		b := catalog.NewPathVariablesBuilder(core.catalog.UserTypes)
+		b.AddProperty(p.parameter, piece.node.Copy(), piece.types)
+		if _, err := buildPathVariables(b); err != nil {
+			return piece.pathDirective
+		}
+	}
 	return nil
 }
 
